@@ -111,9 +111,21 @@ def rankTable : List Nat :=
 
 def rank (b : Nat) : Nat := rankTable.getD b 255
 
+/-! constants of `is_poisonous`, `is_good`, `is_really_good`, `Extractor::union` (source-anchored: `bin/check`
+re-extracts each from literal.rs on every run, see `checks/C11.json`) -/
+def poisonLen : Nat := 1
+def poisonRank : Nat := 250
+def goodShortMin : Nat := 1
+def goodShortLen : Nat := 3
+def goodMin : Nat := 2
+def goodLen : Nat := 64
+def reallyGoodMin : Nat := 3
+def reallyGoodLen : Nat := 8
+def unionTrimLen : Nat := 4
+
 /-- `is_poisonous`. -/
 def isPoisonous (l : Lit) : Bool :=
-  l.bytes.isEmpty || (l.bytes.length == 1 && rank (l.bytes.getD 0 0) ≥ 250)
+  l.bytes.isEmpty || (l.bytes.length == poisonLen && rank (l.bytes.getD 0 0) ≥ poisonRank)
 
 /-! ### `TSeq` -/
 
@@ -139,13 +151,13 @@ def hasPoisonousLiteral (t : TSeq) : Bool :=
 def isGood (t : TSeq) : Bool :=
   if t.hasPoisonousLiteral then false
   else match t.seq.minLiteralLen, t.seq.len with
-    | some mn, some len => if mn ≤ 1 then len ≤ 3 else mn ≥ 2 && len ≤ 64
+    | some mn, some len => if mn ≤ goodShortMin then len ≤ goodShortLen else mn ≥ goodMin && len ≤ goodLen
     | _, _ => false
 
 def isReallyGood (t : TSeq) : Bool :=
   if t.hasPoisonousLiteral then false
   else match t.seq.minLiteralLen, t.seq.len with
-    | some mn, some len => mn ≥ 3 && len ≤ 8
+    | some mn, some len => mn ≥ reallyGoodMin && len ≤ reallyGoodLen
     | _, _ => false
 
 /-- `TSeq::choose`. -/
@@ -204,8 +216,8 @@ def exCross (t1 t2 : TSeq) : TSeq :=
 /-- `Extractor::union`. -/
 def exUnion (t1 t2 : TSeq) : TSeq :=
   if overUnion t1.seq t2.seq then
-    let a := (t1.seq.keepFirstBytes 4).dedup
-    let b := (t2.seq.keepFirstBytes 4).dedup
+    let a := (t1.seq.keepFirstBytes unionTrimLen).dedup
+    let b := (t2.seq.keepFirstBytes unionTrimLen).dedup
     let b := if overUnion a b then none else b
     ⟨a.union b, t1.pre && t2.pre⟩
   else ⟨t1.seq.union t2.seq, t1.pre && t2.pre⟩
